@@ -163,6 +163,21 @@ def run(ctx):
                        f"{len(r['got'])} results (missing {sorted(set(want) - set(r['got']))[:6]}), stuck workers {r['stuck']}, time-outs fired {r.get('timeouts')}",
                        {"case": r["case"], "got": r["got"], "labels": r["labels"][:60]})
     ctx.cov["scheduled_pool_passes"] = len(pres)
+    # ---- Rust: every item handed to parallel_map is dispatched to exactly one worker and comes back exactly once — a pass that
+    # ends normally has delivered everything, also when the mapped function dies on one item (then it must not end normally)
+    from harness.checks import c15
+    plines, _, prc, ptail = c15.cargo_harness(ctx, long_stall_ms=1)
+    for l in plines:
+        if l["kind"] == "full" and l["out"] != [x * 10 for x in range(l["n"])]:
+            ctx.report({"kind": "rust-pass", "stage": "parallel_map"}, f"parallel_map(n={l['n']}, threads={l['threads']}) returned {str(l['out'])[:120]}", {"case": l}); break
+    for t in c15.FAULTS:
+        if not t["raised"] and len(t["out"]) != t["n"]:
+            ctx.report({"kind": "rust-pass", "stage": "parallel_map", "fault": True},
+                       f"parallel_map(n={t['n']}, threads={t['threads']}) whose function dies on item {t['j']} ended normally with {len(t['out'])} of {t['n']} results", {"case": {k: t[k] for k in ("n", "threads", "j", "out")}})
+            break
+    if not plines:
+        raise RuntimeError(f"cargo harness produced nothing (rc={prc}): {ptail[-300:]}")
+    ctx.cov["rust_parallel_map_cases"] = len(plines) + len(c15.FAULTS)
     # ---- end to end (child process: threads, TF, rebuilt Rust extension)
     cases = e2e_cases(ctx)
     recs = []
